@@ -74,6 +74,23 @@ pub fn run(a: &Args, acc: &mut Acc) {
             acc.seen("C19", &format!("create|{}|{}", cfg.subdenom, cfg.prefix));
             acc.count("c19:MsgCreateDenom");
         }
+        // whatever sub-denom instantiation accepts: the denom it creates is the denom it configures
+        for weird in [format!(" {}", cfg.subdenom), format!("{} ", cfg.subdenom), format!("{}\n", cfg.subdenom), format!("\t{}", cfg.subdenom), cfg.subdenom.to_uppercase(), format!("{}x", cfg.subdenom)] {
+            let mut w = World::new(ChainKind::built(), &cfg.prefix, &cfg.native_prefix, &cfg.channel);
+            let sc = &run.sc;
+            let mut c2 = cfg.clone();
+            c2.subdenom = weird.clone();
+            let m = Sc::instantiate_msg(&c2, &sc.staker, &sc.collector, &sc.validators, &sc.monitors, None, None, &sc.s);
+            let r = w.instantiate(Kind::Staking, &sc.admin, &sc.q, &m.to_string());
+            acc.seen("C19", &format!("weird-subdenom|{}|{}", weird.len() - cfg.subdenom.len(), r.ok));
+            if r.ok {
+                let created: Vec<String> = r.events.iter().filter_map(|e| if let Ev::TfCreate { denom, .. } = e { Some(denom.clone()) } else { None }).collect();
+                let configured = w.query(&sc.q, "{\"config\":{}}").ok().map(|c| vs(&c, "liquid_stake_token_denom")).unwrap_or_default();
+                if created != vec![configured.clone()] {
+                    acc.violations.push(json!({"property": "C19", "what": format!("instantiation with sub-denom {weird:?} created {created:?} but configured the LST denom {configured:?}"), "sig": "created denom differs from configured denom", "replay": ""}));
+                }
+            }
+        }
         run.prologue();
         let mut g = Gen::new(hseed ^ 0x1919, Profile::balanced());
         run.random_steps(&mut g, steps);
